@@ -323,6 +323,35 @@ def _count_reads(e, name):
     return n
 
 
+def nearest_rule(rep):
+    from ..engines import scope
+    rep.rule("C12.g", "nearest declaration wins when the serializer decides whether a namespace binding is already in scope: "
+             "DOMLSSerializerImpl::isNamespaceBindingActive / isDefaultNamespacePrefixDeclared walk fNamespaceStack from the "
+             "innermost element outwards, and a scope in which the prefix is declared (non-null map lookup) ends the walk on "
+             "every path — an inner re-declaration to another URI must hide the outer one, or the element is written without the "
+             "xmlns attribute it needs and re-parses into a different namespace")
+    qs = ["DOMLSSerializerImpl::isNamespaceBindingActive", "DOMLSSerializerImpl::isDefaultNamespacePrefixDeclared"]
+    pat = "^(" + "|".join(re.escape(q) for q in qs) + ")$"
+    g = core.run_xa([os.path.join(core.REPO, SER)], cfg=pat, st=pat, flat=False)
+    n = 0
+    for q in qs:
+        cfg = guard.Cfg(g.cfg(q))
+        looked = set()
+        for bid, i, el in cfg.elements():
+            for d in el.get("decl", []):
+                if d[2] and any(isinstance(x, list) and x and x[0] == "c" and x[1].split("::")[-1] == "get" for x in sx_walk(d[2])):
+                    looked.add(d[0])
+        if not looked:
+            raise AnalysisBroken("%s: no local initialised from a namespace map lookup" % q)
+
+        def hit(c, looked=looked):
+            if isinstance(c, list) and len(c) == 4 and c[0] == "b" and c[1] == "!=" and c[3] == ["i", 0]:
+                c = c[2]
+            return isinstance(c, list) and len(c) == 2 and c[0] == "l" and c[1] in looked
+        n += scope.nearest_wins(rep, "C12.g", g, q, hit, ("size", "fNamespaceStack"), SER)
+    rep.floor("C12.g", n, 2)
+
+
 def run(rep):
     f = core.library_facts()
     g = core.run_xa([os.path.join(core.REPO, SER), os.path.join(core.REPO, FMT)],
@@ -332,6 +361,7 @@ def run(rep):
     tables_rule(rep, g)
     dispatch_rule(rep, f)
     mode_rule(rep, f, g)
+    nearest_rule(rep)
     eaten_rule(rep, f, "C12.f", lambda fn: fn.get("cls") in ("XMLFormatter", "DOMLSSerializerImpl"))
     diag.run(rep, f, "C12")
     rep.undecided += ["round-trip equality (isEqualNode) and idempotence of serialisation: value-level",
